@@ -363,7 +363,7 @@ def validate(prog, cj, model, shapes, opts: Options, ref_fn=None, pre=None) -> d
         else:
             ref_cmp.append(r)
     stats = equiv.Stats()
-    assumptions = constraints + jctx.domain + jctx.unwind + octx.unwind + octx.domain
+    assumptions = constraints + S.representability_axioms(ins) + jctx.domain + jctx.unwind + octx.unwind + octx.domain
     cmp = equiv.compare_outputs(
         onnx_outs,
         ref_cmp,
@@ -565,6 +565,7 @@ def replay_concrete(prog, cj, model, arrays, pos_names):
                             own = np.abs(j64a - r64)
                             # conditioning: a 1-ulp change of the float32 inputs is error JAX's own
                             # single-precision evaluation already carries
+                            deltas = []
                             for sgn in (+1, -1):
                                 pert = [np.nextafter(np.asarray(a), np.asarray(sgn * np.inf, dtype=np.asarray(a).dtype)) if np.asarray(a).dtype.kind == "f" else a for a in arrays]
                                 p64 = _jax64(prog, pert)
@@ -574,7 +575,11 @@ def replay_concrete(prog, cj, model, arrays, pos_names):
                                         q = np.transpose(q, (0, 3, 1, 2))
                                     if q.shape == r64.shape:
                                         with np.errstate(all="ignore"):
-                                            own = np.maximum(own, np.nan_to_num(np.abs(q - r64), nan=np.inf))
+                                            deltas.append(np.nan_to_num(np.abs(q - r64), nan=np.inf))
+                            if len(deltas) == 2:
+                                # smooth ill-conditioning varies on BOTH sides; a step at an exactly
+                                # representable tie (round/floor/compare) is constant on one side and stays in
+                                own = np.maximum(own, np.minimum(deltas[0], deltas[1]))
                             slack = 1e-12 if prog.x64 else 1e-5
                             bad = bad & np.isfinite(r64) & (np.abs(o64 - r64) > 32 * own + slack * (1 + np.abs(r64)))
                 if np.any(bad):
